@@ -30,7 +30,7 @@ DECIDING = ['bp.util:BundleContainer.create_report', 'bp.agent:Agent._finish_bun
 REQUIRED_OBS = ['combinations', 'reports_expected', 'reports_checked', 'no_report_expected', 'forwards_sent_as_fragments']
 
 NODE = 'dtn://me/'
-OUTCOMES = ['deliver', 'deliver-admin', 'forward', 'forward-frag', 'delete', 'no-route', 'security', 'duplicate', 'forward-fail', 'forward-frag-fail']
+OUTCOMES = ['deliver', 'deliver-admin', 'forward', 'forward-frag', 'delete', 'no-route', 'security', 'duplicate', 'forward-fail', 'forward-frag-fail', 'security-bcb']
 REQ_BITS = [('received', bpv7.FLAG_REQ_RECEPTION), ('forwarded', bpv7.FLAG_REQ_FORWARDING),
             ('delivered', bpv7.FLAG_REQ_DELIVERY), ('deleted', bpv7.FLAG_REQ_DELETION)]
 OCCURRED = {
@@ -40,6 +40,7 @@ OCCURRED = {
     'forward-frag': {'received', 'forwarded'},
     'delete': {'received', 'deleted'},
     'security': {'received', 'deleted'},
+    'security-bcb': {'received', 'deleted'},   # a confidentiality block that cannot be processed
     'no-route': {'received'},
     'forward-fail': {'received', 'deleted'},   # routed for forwarding, but no transmit route: nothing was forwarded
     'forward-frag-fail': {'received', 'deleted'},   # the route's MTU cannot even hold the blocks without payload: nothing leaves
@@ -47,7 +48,7 @@ OCCURRED = {
 }
 DEST = {
     'deliver': 'dtn://me/app', 'deliver-admin': NODE, 'forward': 'dtn://fwd/app', 'forward-frag': 'dtn://frag/app',
-    'delete': 'dtn://del/app', 'no-route': 'dtn://nowhere/app', 'forward-fail': 'dtn://lost/app', 'forward-frag-fail': 'dtn://tiny/app', 'security': 'dtn://me/app', 'duplicate': 'dtn://me/app',
+    'delete': 'dtn://del/app', 'no-route': 'dtn://nowhere/app', 'forward-fail': 'dtn://lost/app', 'forward-frag-fail': 'dtn://tiny/app', 'security': 'dtn://me/app', 'security-bcb': 'dtn://me/app', 'duplicate': 'dtn://me/app',
 }
 
 
@@ -71,6 +72,7 @@ def cases(tier, seed):
     block = 48
     for idx in range(0, len(combos), block):
         out.append(dict(id='combo-%d' % idx, start=idx, stop=idx + block, variants=(40 if tier == 'thorough' else 1), seed=seed))
+    out.append(dict(id='frag-history', kind='frag-history', start=0, stop=0, variants=1, seed=seed))
     return out
 
 
@@ -91,6 +93,8 @@ def build(combo, rng, variant):
     blocks = []
     if combo['outcome'] == 'security':
         blocks.append(dict(type=11, num=3, flags=0, crc_type=crc, data=_bad_bib(), crc=None))
+    if combo['outcome'] == 'security-bcb':
+        blocks.append(dict(type=12, num=3, flags=0, crc_type=crc, data=_bad_bib() if (combo['mask'] + crc) % 2 else b'\x9f\xff\x00', crc=None))
     if variant and rng.random() < 0.5:
         blocks.append(dict(type=10, num=7, flags=0, crc_type=crc, data=cw.enc([30, 1]), crc=None))
     if combo['outcome'] == 'forward-frag':
@@ -247,7 +251,50 @@ def classify(kind, combo, detail):
     return None
 
 
+def fragment_history(mask, obs):
+    ''' Fragments of a bundle addressed here that never completes (the second fragment claims another total length): while
+    nothing was delivered no report may say so.  :return: list of (kind, text) '''
+    from vf.world.sim import Sim
+    from vf import bp_harness as bh
+    sim = Sim(0, 'eager')
+    node = bh.BpNode(sim, NODE, rx_routes=[(r'dtn://me/.*', 'deliver')], tx_routes=[dict(pattern=r'.*')])
+    flags = bpv7.FLAG_IS_FRAGMENT
+    for idx, (_name, bit) in enumerate(REQ_BITS):
+        if mask & (1 << idx):
+            flags |= bit
+    if mask & 16:
+        flags |= bpv7.FLAG_REQ_STATUS_TIME
+    problems = []
+    for (offset, total, data) in ((0, 100, b'a' * 40), (50, 120, b'b' * 40), (40, 100, b'c' * 20)):
+        pri = dict(version=7, flags=flags, crc_type=1, dest='dtn://me/app', src='dtn://src/app', report_to='dtn://rep/r', create_time=820540000123, seqno=4,
+                   lifetime=3600000, frag_offset=offset, total_adu_len=total, crc=None)
+        node.recv(bpv7.encode(dict(primary=pri, blocks=[dict(type=1, num=1, flags=0, crc_type=1, data=data, crc=None)])))
+        sim.settle(5000)
+    obs['combinations'] += 1
+    obs['fragment_histories'] = obs.get('fragment_histories', 0) + 1
+    if sim.world.callback_errors:
+        problems.append(('raised', 'loop callback raised %s' % sim.world.callback_errors[0].exc_type))
+    delivered = [rec for rec in node.observed if 'deliver' in rec['actions'] and not rec['is_fragment']]
+    for (_no, _raw, data) in node.cl.sent:
+        try:
+            dec, _p = bpv7.decode(data)
+            rec = bpv7.decode_admin_record(bpv7.payload_of(dec)['data'])
+        except (bpv7.DecodeError, TypeError):
+            continue
+        if rec.get('record_type') == 1 and rec['status'][2][0] and not delivered:
+            problems.append(('asserted', 'a status report asserts "delivered" although only fragments of an incomplete bundle arrived (subject offset %r)' % (rec.get('frag_offset'),)))
+    return problems
+
+
 def run_case(case):
+    if case.get('kind') == 'frag-history':
+        obs = dict(combinations=0, reports_expected=0, reports_checked=0, no_report_expected=0, forwards_sent_as_fragments=0)
+        violations = []
+        for mask in range(32):
+            for (kind, what) in fragment_history(mask, obs):
+                violations.append(dict(key=None, what='[%s] fragment history, flags mask %d: %s' % (kind, mask, what), detail=dict(mask=mask)))
+        return dict(verdict='violated' if violations else 'held', nontrivial=True, cls={'frag-history'}, obs=obs, violations=violations[:6],
+                    sample=dict(kind='frag-history'), evaluations=32)
     combos = _all_combos()[case['start']:case['stop']]
     rng = random.Random(case['seed'] * 31 + case['start'])
     obs = dict(combinations=0, reports_expected=0, reports_checked=0, no_report_expected=0, forwards_sent_as_fragments=0)
